@@ -763,6 +763,19 @@ struct Tr {
                 r += (i ? ", " : "") + st[i];
               return r + ")";
             }
+            if (id != Intrinsic::memset) {
+              // second chance: one side is (a cast of) a typed pointer whose pointee is exactly n bytes: a typed copy of one object, wherever it sits
+              // (e.g. a vector element at a symbolic index); CBMC's byte-wise memcpy model over such objects produces enormous formulas
+              for (unsigned k = 0; k < 2; k++) {
+                const Value* P = CB->getArgOperand(k)->stripPointerCasts();
+                auto* PT       = dyn_cast<PointerType>(P->getType());
+                if (!PT)
+                  continue;
+                Type* E = PT->getPointerElementType();
+                if (E->isSized() && !E->isIntegerTy(8) && !E->isFunctionTy() && DL.getTypeAllocSize(E) == n && DL.getTypeStoreSize(E) == n)
+                  return "(*(" + ty(E) + "*)" + arg(0) + " = *(" + ty(E) + "*)" + arg(1) + ")";
+              }
+            }
             return std::string(base) + "(" + arg(0) + ", " + arg(1) + ", " + arg(2) + ")";
           }
           // symbolic length: typed, capacity-bounded element loop instead of CBMC's array-theory model
